@@ -172,7 +172,30 @@ pub fn pair_strategy() -> BoxedStrategy<PairCase> {
             p: format!("{} a good {a}.\n\n", recase(&w, m1)),
             d: format!("It is {} a {b} idea.", recase(&w, m2)),
         });
-    prop_oneof![5 => independent, 3 => shared, 1 => misspelt].boxed()
+    // P ends in an abbreviation that swallows its full stop; D opens with words rules look back from
+    let abbrev = (
+        g::harvested_sentence(),
+        g::sel_str(&["etc.", "vs.", "et al.", "e.g.", "i.e.", "a.m.", "p.m.", "U.S.", "N.S.A.", "a.", "I."]),
+        g::sel_str(&["Is this the right place?", "is it?", "Are we there?", "Of course it is.", "of the people", "the cat", "Then we left.", "than that", "an apple", "A apple", "Was aloud to go.", "fore we go", "Which is fine.", "1st place", "'s good"]),
+        g::sentence(),
+    )
+        .prop_map(|(s, a, open, rest)| {
+            let s = strip_quotes(&s).replace("\n\n", " ");
+            PairCase { p: format!("{} {a}\n\n", s.trim_end_matches(['.', '!', '?', ' ', '\n'])), d: format!("{open} {rest}") }
+        });
+    // ordinals and other condensed constructs in both paragraphs
+    let ordinals = (
+        g::sel_str(&["1st", "2nd", "3rd", "11th", "21ST", "4th", "don't", "e.g.", "N.S.A.", "..."]),
+        g::sel_str(&["2st", "22ND", "3th", "1nd", "13rd", "101th", "won't", "i.e.", "U.S.A.", "...."]),
+        g::plain_word(),
+        g::plain_word(),
+        g::sel_str(&["1st", "5th", "can't", "etc."]),
+    )
+        .prop_map(|(a, b, w1, w2, c)| PairCase {
+            p: format!("She finished {a} in the {w1} and {c} too.\n\n"),
+            d: format!("He came in {b} at the {w2}, then {a} again on the {b} of May."),
+        });
+    prop_oneof![5 => independent, 3 => shared, 1 => misspelt, 2 => abbrev, 1 => ordinals].boxed()
 }
 
 pub fn run(run: &mut Run) {
